@@ -1,11 +1,15 @@
 check("C02", "model_checking",
-      "SyltSound (TLA+) defines the universe of almost-well-typed programs: a menu of 21 perturbation kinds (literal of another type, operator of "
+      "SyltSound (TLA+) defines the universe of almost-well-typed programs: a menu of 24 perturbation kinds (literal of another type, operator of "
       "another class, argument dropped/added, declaration moved into an if/else/elif branch, case arm, loop body or block with the use left after it, "
       "use before declaration, call of a non-function, missing/misspelt field, function-typed parameter called at a second type with and without "
       "generic annotation, branches of different types or without a value, void as value, variant payloads, list element types, field / captured "
       "variable assigned another type, textual order of globals whose initialisers call functions using other globals, case bindings misused or used "
       "after the case, annotation / return type contradicting the value, tuple index out of range, non-bool condition, function that can fall off its "
-      "end) applied at EVERY applicable node (tree engine in TLA+: pre-order sites, node replacement) of well-typed bases: 14 dedicated programs, every "
+      "end, a blob / enum / tuple value of a different but similar user type (prefix / subset / superset / same names other types; the similar types are "
+      "declared in every program) at initialisers, assignments, arguments, returns, fields, list elements and case scrutinees, an ill-typed operand "
+      "reaching an operator / field read / index through an un-annotated parameter from a literal, variable, alias chain, field, call result or tuple "
+      "element, a name used outside the region where it is bound: self in every non-method position of a blob literal, case binding in a sibling arm, "
+      "loop-body local in the condition, parameter / inner local outside its function) applied at EVERY applicable node (tree engine in TLA+: pre-order sites, node replacement) of well-typed bases: 17 dedicated programs, every "
       "SyltGen template in its harness contexts, and (thorough) a seeded shard of the pairwise nesting. TLC enumerates (base, site, alternative) and "
       "emits the programs; each is compiled by the real compiler with std, only the accepted ones are run in minilua under step and call-depth "
       "budgets with the global-access log and prints recorded. TLC (Trace_Sound) then re-derives every case from its id, validates the recorded "
